@@ -26,7 +26,7 @@ var charsets = map[string]string{
 	"base20":  op.CharSetBase20,
 	"digits":  op.CharSetDigits,
 	"AB":      "AB",
-	"unicode": "é😀x",
+	"unicode": "é😀ж", // no ASCII member: a defect in rune handling shows in every code, whatever is drawn
 	"single":  "A",
 	"plus":    "AB+", // a character that has a meaning inside a query string (seeded part only: whether a code contains it is up to the random stream)
 	"hex":     "0123456789abcdef",
@@ -306,8 +306,8 @@ func runSeeds(c *engine.Check) {
 				draw := func(seed uint64) (out [2]daResp, o string) {
 					cryptotest.SetGlobalRandom(c.T, seed)
 					if pan := engine.Bubble(c.T, 0, func() {
-						r.Core.Reset(refstore.NewState())
 						for i := range out {
+							r.Core.Reset(refstore.NewState()) // fresh store: equal user codes are observed, not refused as duplicates
 							resp := r.Do(router, daRequest(r, client, "static"))
 							if o = obs(resp); o != "devauth" {
 								return
